@@ -114,7 +114,7 @@ public:
 	einteger& operator>>=(int shift) {
 		if (shift == 0) return *this;
 		if (shift < 0) return operator>>=(-shift);
-		if (shift > static_cast<int>(nbits())) {
+		if (shift >= static_cast<int>(nbits())) {
 			setzero();
 			return *this;
 		}
@@ -126,7 +126,9 @@ public:
 				// shift by blocks
 				for (size_t i = 0; i <= MSU - blockShift; ++i) {
 					_block[i] = _block[i + blockShift];
-					_block[i + blockShift] = 0; // null the upper block
+				}
+				for (size_t i = MSU - blockShift + 1; i <= MSU; ++i) {
+					_block[i] = 0; // null the vacated upper blocks
 				}
 			}
 			// adjust the shift
